@@ -1,4 +1,5 @@
 import Ccp.Proofs.Typed
+import Ccp.Proofs.TypedX
 import Ccp.Props.C03
 /-!
 # C05 — typed value extraction returns the first match in family order, else the default
@@ -438,5 +439,125 @@ example : (Edit.step exS .commit).1.items = Edit.committedItems (Edit.step exS .
 -- after a commit the state is searchable again and the inserted line is a child of line 0
 example : stIterTyped (Edit.step exS .commit).1 exG (fun _ => .error (.ext [])) 0 .int (.int (-1)) false false
     = .ok (.int 7) := by decide +kernel
+
+end Ccp.C05
+
+
+/-! ## Defaults of every type (`Ccp.Model.TypedX`: the caller's `default` may also be a `float` or a `bool`)
+
+Python compares `0 == False == 0.0`, `1500 == 1500.0` …, but what is returned for a default depends on its TYPE. -/
+namespace Ccp.C05
+open Ccp.Typed Ccp.TypedX Ccp.Tree Ccp.Py
+
+/-- **Nothing new on the old defaults**: with a default that is `None`, a `str` or an `int`, the extended helpers are
+the helpers of `Ccp.Model.Typed` (whose `IPv4Obj` oracle is the extended one restricted to those arguments). -/
+theorem typedX_old_defaults (x : CtxX) (i : Nat) (ty : Ty) (a : Arg) (u r : Bool) :
+    reMatchIterTypedX x i ty (.base a) u r = liftV (reMatchIterTyped x.c i ty a u r) ∧
+    reMatchTypedX x i ty (.base a) u = liftV (reMatchTyped x.c i ty a u) ∧
+    rootIterTypedX x ty (.base a) u = liftV (rootIterTyped x.c ty a u) ∧
+    reMatchX x i (.base a) = liftV (reMatch x.c i a) := by
+  refine ⟨?_, ?_, ?_, ?_⟩
+  · rw [iterX_eq_firstLoop, iter_eq_firstLoop, typedDefaultX_base]
+    change _ = liftV (match firstLoop x.c ty (order x.t i r) with | some v => v | none => typedDefault x.c ty a u)
+    generalize firstLoop x.c ty (order x.t i r) = o
+    cases o <;> rfl
+  · unfold reMatchTypedX reMatchTyped
+    cases x.c.at i <;> simp only [typedDefaultX_base] <;> rfl
+  · rw [rootX_eq_firstLoop, root_eq_firstLoop, typedDefaultX_base]
+    change _ = liftV (match firstLoop x.c ty (roots x.t) with | some v => v | none => typedDefault x.c ty a u)
+    generalize firstLoop x.c ty (roots x.t) = o
+    cases o <;> rfl
+  · unfold reMatchX reMatch
+    cases x.c.at i <;> rfl
+
+/-- **First match, any default**: when `j` is the first matching line of the family order the answer is the converted
+group of line `j`; the default — whatever its type — plays no part. -/
+theorem iterTypedX_first (x : CtxX) (i : Nat) (ty : Ty) (d : ArgX) (u r : Bool) (j : Nat)
+    (h : FirstMatch x.c (order x.t i r) j) :
+    reMatchIterTypedX x i ty d u r = liftV (convGroup x.c.ip ty (x.c.at j)) := by
+  obtain ⟨pre, post, hl, hpre, hj⟩ := h
+  rw [iterX_eq_firstLoop, hl, firstLoop_split x.c ty pre post j hpre hj]
+
+/-- **Default, any type**: when no line of the family order matches, the answer is the default itself
+(`untyped_default`) or `result_type(default)` computed from the default AS TYPED by the caller. -/
+theorem iterTypedX_default (x : CtxX) (i : Nat) (ty : Ty) (d : ArgX) (u r : Bool)
+    (h : NoMatch x.c (order x.t i r)) :
+    reMatchIterTypedX x i ty d u r = (if u then .ok (ValX.ofArgX d) else convX x.ipx ty d) := by
+  rw [iterX_eq_firstLoop, firstLoop_none x.c ty _ h]; rfl
+
+/-- the same for the one-line variant and the config-level variant -/
+theorem matchTypedX_default (x : CtxX) (i : Nat) (ty : Ty) (d : ArgX) (u : Bool)
+    (h : x.c.at i = .noMatch ∨ x.c.at i = .unset) :
+    reMatchTypedX x i ty d u = (if u then .ok (ValX.ofArgX d) else convX x.ipx ty d) := by
+  rcases h with h | h <;> simp [reMatchTypedX, h, typedDefaultX]
+
+theorem rootIterX_default (x : CtxX) (ty : Ty) (d : ArgX) (u : Bool) (h : NoMatch x.c (roots x.t)) :
+    rootIterTypedX x ty d u = (if u then .ok (ValX.ofArgX d) else convX x.ipx ty d) := by
+  rw [rootX_eq_firstLoop, firstLoop_none x.c ty _ h]; rfl
+
+/-- `re_match` hands the default back as the object it is -/
+theorem matchX_default (x : CtxX) (i : Nat) (d : ArgX) (h : x.c.at i = .noMatch) :
+    reMatchX x i d = .ok (ValX.ofArgX d) := by
+  simp [reMatchX, h]
+
+/-- **`result_type(default)` by type of the default**: `str` is `str(default)`; `int` truncates a float towards zero and
+maps `True/False` to `1/0`; `float` leaves a float alone and maps `True/False` to `1.0/0.0`; `IPv4Obj` is the oracle. -/
+theorem convX_spec (ipx : ArgX → Except Err Str) :
+    (∀ d, convX ipx .str d = .ok (.base (.str (pyStrX d)))) ∧
+    (∀ neg ip frac, convX ipx .int (.float neg ip frac) = .ok (.base (.int (if neg then -(ip : Int) else ip)))) ∧
+    (∀ b, convX ipx .int (.bool b) = .ok (.base (.int (if b then 1 else 0)))) ∧
+    (∀ neg ip frac, convX ipx .float (.float neg ip frac) = .ok (.base (.float (floatRepr neg ip frac)))) ∧
+    (∀ b, convX ipx .float (.bool b) = .ok (.base (.float (if b then "1.0".toList else "0.0".toList)))) := by
+  refine ⟨?_, fun _ _ _ => rfl, fun _ => rfl, fun _ _ _ => rfl, fun _ => rfl⟩
+  intro d
+  cases d with
+  | base a => rfl
+  | float neg ip frac => rfl
+  | bool b => rfl
+
+/-- **A default keeps its type**: defaults of different types never have the same `str()` — an `int` has no decimal
+point, a `float` has one, a `bool` starts with a letter — although `1500 == 1500.0`, `0 == False == 0.0`, `1 == True == 1.0`
+in Python.  So `result_type=str` tells them apart: an answer remembered for one of them is wrong for the others. -/
+theorem default_keeps_its_type (n : Int) (neg : Bool) (ip : Nat) (frac : Str) (b : Bool) :
+    pyStrX (.base (.int n)) ≠ pyStrX (.float neg ip frac) ∧
+    pyStrX (.bool b) ≠ pyStrX (.base (.int n)) ∧
+    pyStrX (.bool b) ≠ pyStrX (.float neg ip frac) := by
+  refine ⟨?_, ?_, ?_⟩
+  · intro h
+    have h1 := floatRepr_has_point neg ip frac
+    have h2 := intToDec_no_point n
+    simp only [pyStrX, pyStr] at h
+    rw [← h] at h1
+    exact h2 h1
+  · intro h
+    obtain ⟨c, cs, hc, hd⟩ := intToDec_head n
+    simp only [pyStrX, pyStr] at h
+    rw [hc] at h
+    cases b <;> simp at h <;> (rcases hd with hd | hd <;> (rw [← h.1] at hd; revert hd; decide))
+  · intro h
+    obtain ⟨c, cs, hc, hd⟩ := floatRepr_head neg ip frac
+    simp only [pyStrX] at h
+    rw [hc] at h
+    cases b <;> simp at h <;> (rcases hd with hd | hd <;> (rw [← h.1] at hd; revert hd; decide))
+
+/-! ### examples (non-vacuity) -/
+
+/-- a config in which no line has an `mtu`, `IPv4Obj` refusing everything -/
+def exX : CtxX :=
+  { g := fun _ => .noMatch, ipx := fun _ => .error (.ext "AddressValueError".toList),
+    t := parse { ios := true, delims := ['!'], ignoreBlank := false } ["interface Serial1/0".toList, " description uplink".toList] }
+
+example : NoMatch exX.c (order exX.t 0 true) := by unfold NoMatch; decide +kernel
+example : reMatchIterTypedX exX 0 .str (.base (.int 1500)) false true = .ok (.base (.str "1500".toList)) := by decide +kernel
+example : reMatchIterTypedX exX 0 .str (.float false 1500 "0".toList) false true = .ok (.base (.str "1500.0".toList)) := by decide +kernel
+example : reMatchIterTypedX exX 0 .str (.bool false) false true = .ok (.base (.str "False".toList)) := by decide +kernel
+example : reMatchIterTypedX exX 0 .int (.float true 2 "5".toList) false false = .ok (.base (.int (-2))) := by decide +kernel
+example : reMatchIterTypedX exX 0 .float (.bool true) false true = .ok (.base (.float "1.0".toList)) := by decide +kernel
+example : reMatchIterTypedX exX 0 .int (.bool true) true true = .ok (.bool true) := by decide +kernel
+example : rootIterTypedX exX .str (.float true 0 "0".toList) false = .ok (.base (.str "-0.0".toList)) := by decide +kernel
+example : reMatchTypedX exX 1 .ip (.float false 1 "0".toList) false = .error (.ext "AddressValueError".toList) := by decide +kernel
+example : exX.c.at 0 = .noMatch := by decide +kernel
+example : FirstMatch { exX with g := fun s => if s = " description uplink".toList then .val "7".toList else .noMatch }.c
+    (order exX.t 0 true) 1 := ⟨[0], [], by decide +kernel, by decide +kernel, by decide +kernel⟩
 
 end Ccp.C05
